@@ -123,6 +123,7 @@ def rand_op(rng, s, findings_ok=False):
 def gen_consistent(rng, s, shape):
     """Self-consistent model at opset s (inputs of the property): versions unset or equal to s."""
     nodes, funcs = [], []
+    valnames = False
 
     def vers():
         return rng.choice([None, None, None, s])
@@ -143,11 +144,17 @@ def gen_consistent(rng, s, shape):
             return out
 
         nodes = [node(rand_op(rng, s)), node(P("If"), bodies=[body(2), body(2)]), node(rand_op(rng, s))]
+        if rng.random() < 0.5:
+            # exporter-style names for the body outputs, and a node after the If that an adapter rewrites
+            valnames = True
+            nodes.append(node(valid_dft(rng, s) if rng.random() < 0.6 else valid_gn(rng, s)))
     elif shape == "func":
         fn = [node(rand_op(rng, s)) for _ in range(rng.choice([1, 2]))]
         if rng.random() < 0.3:
             fn.append(node(P("If"), bodies=[[leaf(rand_op(rng, s))], [leaf(rand_op(rng, s))]]))
         no_axis_input(fn)
+        if rng.random() < 0.5:
+            fn.insert(rng.randrange(len(fn) + 1), node(P("Foo"), d=0))  # a domain only the function imports
         funcs = [{"decl": s, "ai": None, "nodes": fn}]
         nodes = [node(rand_op(rng, s)), node({"k": "CALL", "f": 0}, d=0)]
         if rng.random() < 0.4:
@@ -161,7 +168,7 @@ def gen_consistent(rng, s, shape):
     else:
         raise ValueError(shape)
     return {"decl": s, "ai": None, "nodes": nodes, "funcs": funcs,
-            "extra_inits": rng.choice([0, 0, 1, 2, 3])}
+            "extra_inits": rng.choice([0, 0, 1, 2, 3, 3, 4]), "valnames": valnames}
 
 
 def no_axis_input(nodes):
@@ -254,7 +261,7 @@ def gen_adversarial(rng):
         cands = [x for x in (m["v"], decl, ai) + tuple(f["decl"] for f in funcs) if x is not None]
         if m["op"]["k"] == "DFT" and m["op"]["axisIn"] is not None and cands and min(cands) <= 19:
             m["op"]["axis"], m["op"]["axisIn"] = m["op"]["axisIn"], None
-    return {"decl": decl, "ai": ai, "nodes": nodes, "funcs": funcs, "extra_inits": rng.choice([0, 0, 1, 3]),
+    return {"decl": decl, "ai": ai, "nodes": nodes, "funcs": funcs, "extra_inits": rng.choice([0, 0, 1, 3, 4]),
             "entry": entry, "fb": rng.choice(["none", "yes", "no"]),
             "target": rng.choice([17, 18, 19, 20, 21, 22, 24, 25, 26]), "adversarial": True}
 
@@ -516,6 +523,41 @@ def gn_scale_len_after(n_ir):
     return length(ins[1]) if len(ins) > 1 else None
 
 
+def undeclared_domains(proto) -> set:
+    """Operator domains used by a node of the main graph (subgraphs included) without an opset import of the model.
+    (Calls of model-local functions use the function's domain, which the model imports like any other.)"""
+    norm = lambda d: "" if d == "ai.onnx" else d  # noqa: E731
+    declared = {norm(o.domain) for o in proto.opset_import}
+    used = set()
+
+    def rec(nodes):
+        for n in nodes:
+            used.add(norm(n.domain))
+            for a in n.attribute:
+                if a.type == 5:
+                    rec(a.g.node)
+                elif a.type == 10:
+                    for sg in a.graphs:
+                        rec(sg.node)
+
+    rec(proto.graph.node)
+    return used - declared
+
+
+def ort_loads(proto) -> str:
+    import onnxruntime as ort
+
+    ort.set_default_logger_severity(4)
+    try:
+        so = ort.SessionOptions()
+        so.graph_optimization_level = ort.GraphOptimizationLevel.ORT_DISABLE_ALL
+        so.log_severity_level = 4
+        ort.InferenceSession(proto.SerializeToString(), so, providers=["CPUExecutionProvider"])
+        return ""
+    except Exception as e:  # noqa: BLE001
+        return str(e)[-200:]
+
+
 def duplicate_names(graph) -> set:
     """Names defined twice in one graph, or defined in a subgraph although an enclosing graph defines them
     (the ONNX IR rule onnxruntime enforces; sibling subgraphs may reuse names)."""
@@ -582,11 +624,20 @@ def judge(case, real) -> list[tuple[str, str]]:
         ai_ = {i.name: i.SerializeToString() for i in ap.graph.initializer}
         if bi != ai_:
             problems.append(("", f"initializers changed: {sorted(set(bi) ^ set(ai_))}"))
+    if ap is not None and real["err"] == "none":
+        und = undeclared_domains(ap)
+        if und:
+            problems.append(("", f"converted model uses operator domain(s) {sorted(und)} without an opset import "
+                                 f"(declared: {sorted(o.domain for o in ap.opset_import)})"))
     if ap is not None and real["err"] == "none" and not (real["capi_called"] and real["capi_ok"]):
         dup = duplicate_names(ap.graph)
         if dup:
             problems.append(("",
                              f"converted model is not in SSA form: {sorted(dup)[:3]} defined more than once (graph + subgraphs)"))
+        if case.get("valnames") and runnable(case) and not ort_loads(real["before_proto"]):
+            why = ort_loads(ap)
+            if why:
+                problems.append(("", f"onnxruntime loads the source model but rejects the converted one: …{why[-150:]}"))
     if real["capi_called"] and real["capi_ok"]:
         if decl_after != t:
             problems.append(("", f"C-API path: declared {decl_after}, target {t}"))
@@ -937,6 +988,12 @@ def check_cases(run, drv, cases, stats: Counter):
             stats[f"subgraph_nesting_depth_{depth(c['nodes'] + [n for f in c['funcs'] for n in f['nodes']])}"] += 1
         if c["funcs"]:
             stats["with_functions"] += 1
+            if any(m["d"] == 0 and m["op"]["k"] != "CALL" for f in c["funcs"] for m in L.iter_nodes(f["nodes"])):
+                stats["function_with_private_domain"] += 1
+        if c.get("valnames") and any(creates_values(n["op"], c["decl"], c["target"]) for n in c["nodes"] if c["decl"] is not None):
+            stats["val_named_body_outputs_then_rewrite"] += 1
+        if branch == "capi-ok" and c.get("extra_inits", 0) >= 3:
+            stats["capi_ok_big_initializer_also_input"] += 1
         # property verdict only on self-consistent inputs through the public entry points
         if not c.get("adversarial") and c["entry"] != "native":
             stats["judged"] += 1
@@ -1119,7 +1176,8 @@ def main(run: core.Run) -> None:
     needed = ["branch_early-exit", "branch_native-nofallback", "branch_native-supported", "branch_capi-ok",
               "branch_capi-fail", "branch_native-direct", "branch_inline-error", "err_VersionConverterError",
               "err_ValueError", "with_subgraph", "with_functions", "op_GN", "op_DFT", "op_GS",
-              "subgraph_nesting_depth_2", "subgraph_nesting_depth_3"]
+              "subgraph_nesting_depth_2", "subgraph_nesting_depth_3", "function_with_private_domain",
+              "val_named_body_outputs_then_rewrite", "capi_ok_big_initializer_also_input"]
     missing = [k for k in needed if stats[k] == 0]
     if missing:
         raise core.Infra(f"generator degenerated: never produced {missing}")
